@@ -12,6 +12,11 @@
     no restart after an own exit, no respawn before the previous instance ended, flag at the first processing of a
     deleting / mismatching view, cancel not before the backoff, finalizer not released under a live daemon before
     backoff+timeout, every matching object has a live instance at rest, never stalls.
+(C) Spawning.tla, the implementation-shaped model (one action per code section of process_spawning_cause / stop_daemons /
+    _runner / daemon_killer's exit branch / apply), model-checked (safety for 8 + 6 configurations, the bounded completion
+    of a deletion for 96 timed ones, negative and witness configurations) and bound to the SAME executions by step
+    conformance (Trace_Spawning.tla): a spawn, a stop flag, a cancellation, a write of the finalizer, a sleep or a touch
+    that the specification does not make in that state at that instant is a rejection.
 """
 from concurrent.futures import ProcessPoolExecutor
 
@@ -38,7 +43,21 @@ def run(ctx, rep) -> None:
             raise MachineryFailure(f'witness configuration {c} should violate {inv}')
         neg[c] = f'{inv} violated in {len(r.trace)} steps (known family)'
     rep.extra['witness_configs'] = neg
-    scs = D.gen_scenarios(ctx.seed, 200 if ctx.quick else 5000)
+    # Spawning.tla: the implementation-shaped model of the same machinery (stages of stop_daemons by the age of the flag, instant
+    # exits, the exiting killer, apply's patch | sleep | touch), bound to the code by Trace_Spawning below
+    for c in ['q', 'exit', 'timed'] + ([] if ctx.quick else ['live']):
+        r = tlc.run('MC_Spawning', f'MC_Spawning_{c}.cfg', timeout=3000)
+        rep.add_tlc(f'MC_Spawning_{c}', r)
+        if not r.ok:
+            rep.violation(f'Spawning design check {c}: {r.violated} {r.errors[:1]}', files={'tlc.out': r.out[-100000:]})
+    sneg = {}
+    for c, inv in [('neg_stuck', 'StuckInTime'), ('neg_tight', 'TooTight'), ('f5', 'NoF5'), ('f18', 'NoF18')]:
+        r = tlc.run('MC_Spawning', f'MC_Spawning_{c}.cfg', timeout=900)
+        if r.ok or ('invariant', inv) not in r.violated:
+            raise MachineryFailure(f'configuration MC_Spawning_{c} should violate {inv}: {r.violated}')
+        sneg[c] = f'{inv} violated, as required'
+    rep.extra['spawning_negative_and_witness_configs'] = sneg
+    scs = D.crafted() + D.gen_scenarios(ctx.seed, 200 if ctx.quick else 5000)
     # idle-only timers that are stopped after their first run (the F1 stall, fixed in b6c0de9) and other timer stops
     tscs = [s for s in T.gen_scenarios(ctx.seed + 7, 400 if ctx.quick else 4000) if s['delete_at'] is not None][:60 if ctx.quick else 1200]
     with ProcessPoolExecutor(16) as ex:
@@ -54,6 +73,13 @@ def run(ctx, rep) -> None:
         if v == 'ok':
             continue
         rep.classified(v if v in ('F5', 'F18') else '', f'{t["id"]}: {v}', payload=t)
+    # step conformance: the same executions must be behaviours of Spawning.tla (every spawn, flag, cancellation, finalizer write, sleep
+    # and touch at the instant the specification makes it), its invariants true in every state, the rest-state clauses at `quiet`
+    sv = D.judge_spawning(traces, rep)
+    for t in traces:
+        v = sv[t['id']]['verdict']
+        if v != 'ok':
+            rep.classified(v if v in ('F5', 'F18') else '', f'{t["id"]}: Trace_Spawning: {v}', payload=t['spawning'])
     for t in ttraces:
         if t['stall']:
             rep.violation(f'{t["id"]}: the event loop stalled while a timer was being stopped', payload=t)
